@@ -4,7 +4,7 @@ from __future__ import annotations
 
 import copy
 
-FLIP_VALUES = (0x00, 0x80, 0xE9, 0xFF)
+FLIP_VALUES = (0x00, 0x80, 0x81, 0x9D, 0xE9, 0xFF)   # NUL, C1 controls (undefined in cp1252), Latin-1 letter, never-valid UTF-8
 
 
 def _lines(b: bytes):
